@@ -368,7 +368,7 @@ def _site_role(b, bb):
     return "%s#%d" % (r.split("::")[-1], sites.index(bb) if bb in sites else -1)
 
 
-@rule("CASE-CLOSURE-ALL", ["C11", "C09"], floor=3)
+@rule("CASE-CLOSURE-ALL", ["C11", "C09", "C20", "C01"], floor=3)
 def case_closure_all(ctx):
     """In parse_character_class every add_char/add_range of a pattern literal is followed, before the next class
     item is read, either by the false side of the flag-i test or by the case closure of the same character /
@@ -411,7 +411,7 @@ def case_closure_all(ctx):
     return out
 
 
-@rule("CASE-GATE", ["C11"], floor=6)
+@rule("CASE-GATE", ["C11", "C19", "C13", "C01"], floor=6)
 def case_gate(ctx):
     """No case-folding primitive (equal_case_blind, CaseMapCloser, CaseMapper) is reachable on the paths where flag i
     is off: every such call site is edge-dominated by the true side of is_case_independent() / the case_blind parameter."""
